@@ -89,37 +89,38 @@ class TimeParts(_D):
 @register
 class SerialParts(_D):
     name = 'C14.serial_parts'
-    doc = 'YEAR / MONTH / DAY read from a whole-day serial number give the calendar date that many days after 1899-12-30'
+    doc = 'YEAR / MONTH / DAY read from a whole-day serial number n give a valid calendar date whose day count from ' \
+          '1899-12-30 is n (checked forward through the independent date -> ordinal formula, which is injective)'
     functions = ('dateandtime.YEAR', 'dateandtime.MONTH', 'dateandtime.DAY', 'utils.parse_date')
-    bounds = 'the serial of every date 1900-03-01..9999-12-31 (month split; the serial is built from y, m, d by independent arithmetic)'
+    bounds = 'every integer serial 61..2958465 (1900-03-01..9999-12-31), split by 400-year cycle of the proleptic calendar'
     case_timeout_s = {'quick': 200, 'thorough': 1500}
+    solver_timeout_ms = {'quick': 60000, 'thorough': 300000}
 
     def cases(self, tier):
-        return [{'month': m} for m in range(1, 13)]
+        out = []
+        for c in range(0, 30):
+            lo, hi = c * 146097 + 1, (c + 1) * 146097
+            lo, hi = max(lo, ORD_1900_03_01), min(hi, dates.MAXORD)
+            if lo <= hi:
+                out.append({'lo': lo - ORD_1899_12_30, 'hi': hi - ORD_1899_12_30})
+        return out
 
     def build(self, e, p):
-        y = e.fresh_int('y', 1900, 9999)
-        d = e.fresh_int('d', 1, 31)
-        m = z3.IntVal(p['month'])
-        e.add(d.z <= z_days_in_month(y.z, m))
-        n = z3.Int('n')
-        e.bounded(n, 61, 2958465)
-        e.add(n == z_ymd2ord(y.z, m, d.z) - ORD_1899_12_30)
-        return {'n': SymInt(n), 'y': y, 'd': d}
+        return {'n': e.fresh_int('n', p['lo'], p['hi'])}
 
     def run(self, env, inp, p):
         vs = {'vn': inp['n']}
         return [self.parse_with(env, '%s(vn)' % f, vs) for f in ('YEAR', 'MONTH', 'DAY')]
 
     def post(self, env, inp, out, p):
-        if isinstance(out, Raised) or not all(is_record(o) for o in out):
+        if isinstance(out, Raised) or not all(ok_result(o) for o in out):
             return False
-        if env.symbolic:
-            y, m, d = inp['y'], p['month'], inp['d']
-        else:
-            dt = datetime.date.fromordinal(inp['n'] + ORD_1899_12_30)
-            y, m, d = dt.year, dt.month, dt.day
-        return And(int_eq(out[0], y), int_eq(out[1], m), int_eq(out[2], d))
+        y, m, d = [o['result'] for o in out]
+        if not (isint(y) and isint(m) and isint(d)):
+            return False
+        y, m, d, n = zint(y), zint(m), zint(d), zint(inp['n'])
+        valid = z3.And(y >= 1900, y <= 9999, m >= 1, m <= 12, d >= 1, d <= z_days_in_month(y, m))
+        return mkbool(z3.simplify(z3.And(valid, z_ymd2ord(y, m, d) - ORD_1899_12_30 == n)))
 
 
 @register
